@@ -17,12 +17,29 @@ type (
 	Locker    = sync.Locker
 )
 
+// ErrHeld is the panic value when a lock is requested outside a simulation (the harness's
+// single-threaded inspection after a run) and is still held: some operation returned without
+// unlocking.  Blocking there would hang the check instead of reporting it.
+var ErrHeld = errHeld{}
+
+type errHeld struct{}
+
+func (errHeld) Error() string {
+	return "ssync: lock still held although no simulated thread is running (a Lock without Unlock)"
+}
+
 type Mutex struct {
 	mu sync.Mutex
 	m  core.LockModel
 }
 
 func (x *Mutex) Lock() {
+	if !core.Active() {
+		if !x.mu.TryLock() {
+			panic(ErrHeld)
+		}
+		return
+	}
 	core.YieldLock(core.KLock, &x.m)
 	x.mu.Lock()
 }
@@ -52,6 +69,12 @@ type RWMutex struct {
 }
 
 func (x *RWMutex) Lock() {
+	if !core.Active() {
+		if !x.mu.TryLock() {
+			panic(ErrHeld)
+		}
+		return
+	}
 	core.YieldLock(core.KLock, &x.m)
 	x.mu.Lock()
 }
@@ -62,6 +85,12 @@ func (x *RWMutex) Unlock() {
 }
 
 func (x *RWMutex) RLock() {
+	if !core.Active() {
+		if !x.mu.TryRLock() {
+			panic(ErrHeld)
+		}
+		return
+	}
 	core.YieldLock(core.KRLock, &x.m)
 	x.mu.RLock()
 }
